@@ -172,7 +172,7 @@ class BlockSeries:
         # Create trial array to use for indexing
         trial_shape = self.shape + tuple(
             [
-                order.stop if isinstance(order, slice) else np.max(order, initial=0) + 1
+                order.stop if isinstance(order, slice) else int(np.max(order, initial=0)) + 1
                 for order in item[n_finite:]
             ]
         )
